@@ -756,10 +756,25 @@ impl<SE: extensions::ShellExtensions> ExecuteInPipeline<SE> for ast::Command {
                     }
                 }
 
-                Ok(compound
-                    .execute(&mut pipeline_context.shell, &params)
-                    .await?
-                    .into())
+                match pipeline_context.shell {
+                    // A compound command that has a subshell of its own (a pipeline stage) runs
+                    // concurrently with the commands spawned after it, like any other stage;
+                    // running it to completion first would deadlock as soon as it fills the pipe
+                    // that the next stage has not been started to drain.
+                    commands::ShellForCommand::OwnedShell { target, .. } => {
+                        let mut owned_shell = *target;
+                        let compound = compound.clone();
+                        let join_handle = tokio::task::spawn_blocking(move || {
+                            let rt = tokio::runtime::Handle::current();
+                            rt.block_on(compound.execute(&mut owned_shell, &params))
+                        });
+
+                        Ok(ExecutionSpawnResult::StartedTask(join_handle))
+                    }
+                    commands::ShellForCommand::ParentShell(shell) => {
+                        Ok(compound.execute(shell, &params).await?.into())
+                    }
+                }
             }
             Self::Function(func) => Ok(func
                 .execute(&mut pipeline_context.shell, &params)
